@@ -10,7 +10,7 @@ open C10_util
 let admin = coq_of_string "ADMIN"
 
 type pop = PC of string * string | PR of string * string | PH of string | PW of string | PX | PBad
-         | PCf of string * string | PRf of string * string | PRace of string
+         | PCf of string * string | PRf of string * string | PRace of string | POvl of string * string
 
 let parse_op (o : string) : pop * string list =
   match split_on ':' o with
@@ -22,11 +22,15 @@ let parse_op (o : string) : pop * string list =
   | ["Cf"; c; n] -> PCf (c, n), [c; n]
   | ["Rf"; c; n] -> PRf (c, n), [c; n]
   | ["RACE"; n] -> PRace n, [n]
+  | ["OVL"; h; n] -> POvl (h, n), [h; n]
   | _ :: rest -> PBad, rest
   | [] -> PBad, []
 
 let parse (input : string) =
-  let ops = Stdlib.List.filter (fun o -> o <> "") (split_on ';' input) in
+  (* "A=<value>" (configured admin token of the case) is configuration, not an operation: the model is
+     parametric in the admin token and runs with the symbolic one *)
+  let is_head o = Stdlib.String.length o >= 2 && Stdlib.String.sub o 0 2 = "A=" in
+  let ops = Stdlib.List.filter (fun o -> o <> "" && not (is_head o)) (split_on ';' input) in
   let parsed = Stdlib.List.map parse_op ops in
   let names = Stdlib.List.concat (Stdlib.List.map snd parsed) in
   let names = Stdlib.List.sort_uniq compare (Stdlib.List.filter (fun n -> n <> "adm" && n <> "") names) in
@@ -78,16 +82,31 @@ let coq_op env (p : pop) =
   | PCf (c, n) -> let v, _ = next_value env n in Some (Tokens.CreateFail (resolve env c, v)), None
   | PRf (c, n) -> Some (Tokens.RevokeFail (resolve env c, resolve env n)), None
   | PRace n -> Some (Tokens.Race (resolve env n)), None
-  | PBad -> None, None
+  | PBad | POvl _ -> None, None
+
+(* OVL:<held>:<probe> = authenticate <held> (HTTP), and while it is in flight authenticate <probe> on an ordinary
+   route, on an admin route (revocation of a never issued value) and on the websocket check.  In the model these
+   are four operations; the answers are computed by [f] (outcome_of on the state, or spec_outcome on the history) *)
+let ovl_ops env h n =
+  [Tokens.AuthHttp (resolve env h); Tokens.AuthHttp (resolve env n);
+   Tokens.Revoke (resolve env n, coq_of_string "?!ovl"); Tokens.AuthWs (resolve env n)]
+let ovl_s (outs : Tokens.outcome list) =
+  match outs with
+  | [Tokens.ORole a; Tokens.ORole b; c; Tokens.OWs w] ->
+    Printf.sprintf "ovl:%s:%s,%s,%s" (role_s a) (role_s b)
+      (match c with Tokens.ORevoked -> "ok" | Tokens.ODenied -> "401" | _ -> "MODEL-BUG") (if w then "ok" else "no")
+  | _ -> "MODEL-BUG"
 
 let model input =
   let ops, names = parse input in
   let env = new_env () in
   let st = ref [] in
   let out = Stdlib.List.map (fun p ->
-      let r = match coq_op env p with
-        | None, _ -> "BAD-OP"
-        | Some o, b ->
+      let r = match p, coq_op env p with
+        | POvl (h, n), _ ->
+          ovl_s (Stdlib.List.map (fun o -> let oc = Tokens.outcome_of admin !st o in st := Tokens.step admin !st o; oc) (ovl_ops env h n))
+        | _, (None, _) -> "BAD-OP"
+        | _, (Some o, b) ->
           let oc = Tokens.outcome_of admin !st o in
           st := Tokens.step admin !st o;
           (match oc, b with Tokens.OCreated, Some (n, v, k) -> do_bind env n v k | _ -> ());
@@ -117,9 +136,12 @@ let spec input obs =
     try
       Stdlib.List.iteri (fun i (p, r) ->
           let res, vec = match split_on '/' r with [a; b] -> a, b | _ -> raise (Fail "malformed-observable no vector") in
-          (match coq_op env p with
-           | None, _ -> if res <> "BAD-OP" then raise (Fail "malformed-observable bad op")
-           | Some o, b ->
+          (match p, coq_op env p with
+           | POvl (h, n), _ ->
+             let want = ovl_s (Stdlib.List.map (fun o -> let oc = Tokens.spec_outcome admin !pre o in pre := !pre @ [o]; oc) (ovl_ops env h n)) in
+             if res <> want then raise (Fail (Printf.sprintf "overlap-interference op %d want %s got %s" i want res))
+           | _, (None, _) -> if res <> "BAD-OP" then raise (Fail "malformed-observable bad op")
+           | _, (Some o, b) ->
              let want = outcome_s p (Tokens.spec_outcome admin !pre o) in
              if res = "c:DUP" then raise (Fail (Printf.sprintf "token-not-distinct op %d" i));
              if res = "c:SHAPE" then raise (Fail (Printf.sprintf "token-shape op %d" i));
